@@ -233,6 +233,17 @@ func hook(ev string, obj, sub interface{}, a, b uint64) {
 		}
 	}
 	call, _ := sub.(*rpc.Call)
+	gid := goid()
+	if r == nil && call != nil && ev == "call.signal" {
+		// a completion signal follows, in the same goroutine, the site event that announces it (c.refuse, c.sweep, c.finish ...):
+		// it belongs to the run of that event. (The *Call pointer alone does not say: Call objects are pooled process-wide and
+		// may be in the hands of another run by the time an event is routed.)
+		siteMu2.Lock()
+		if ls, ok := lastSite[gid]; ok && ls.call == call {
+			r = ls.run
+		}
+		siteMu2.Unlock()
+	}
 	if r == nil && call != nil {
 		routeMu.RLock()
 		r = callRt[call]
@@ -255,12 +266,33 @@ func hook(ev string, obj, sub interface{}, a, b uint64) {
 		callRt[call] = r
 		routeMu.Unlock()
 	}
+	if call != nil {
+		switch ev {
+		case "c.refuse", "c.unregister", "c.sweep", "c.errdone", "c.ackdone", "c.finish":
+			siteMu2.Lock()
+			if len(lastSite) > 4096 {
+				lastSite = map[uint64]siteRef{}
+			}
+			lastSite[gid] = siteRef{run: r, call: call}
+			siteMu2.Unlock()
+		}
+	}
 	e.sub = sub
 	e.raw = obj
 	e.rawA, e.rawB = a, b
-	e.gid = goid()
+	e.gid = gid
 	r.add(e)
 }
+
+type siteRef struct {
+	run  *Run
+	call *rpc.Call
+}
+
+var (
+	siteMu2  sync.Mutex
+	lastSite = map[uint64]siteRef{}
+)
 
 func dropCallRoutes(r *Run) {
 	routeMu.Lock()
